@@ -149,7 +149,7 @@ def _grid_kep(tier, rng):
     for e in (1e-4, 0.01, 0.3, 0.7, 0.95, 1.01, 1.3, 2.0, 5.0, 10.0):
         for k, d in enumerate(dts if tier != "quick" else dts[::2]):
             for o in range(3 if tier != "quick" else 2):
-                yield {"e": e, "dt": d * 86400.0, "orient": o, "form": (k + o) % len(forms), "nu": [0.3, 2.5, -1.2][o]}
+                yield {"e": e, "dt": d * 86400.0, "orient": o, "form": (k + o) % len(forms), "nu": [0.3, 2.5, -1.2][o], "label": (k + 2 * o) % 3}
 
 
 @contract("C05", "kepler.vs_universal_variable", funcs=[f"{KEP}:Kepler.propagate"], grid=_grid_kep, level="bounded")
@@ -178,7 +178,10 @@ def _(c):
     d0 = Date(2018, 5, 4, 3, 2, 1)
     orb = Orbit(list(r0) + list(v0), d0, "cartesian", "EME2000", Kepler())
     orb.form = form
-    res = orb.propagate(d0 + timedelta(seconds=dt)).copy(form="cartesian")
+    # the requested date is handed over in the epoch's own scale, or relabelled TT / GPS (same instant: dt is the physically elapsed time)
+    lab = [None, "TT", "GPS"][c.integer("label")]
+    relab = (lambda d: d) if lab is None else (lambda d: d.change_scale(lab))
+    res = orb.propagate(relab(d0 + timedelta(seconds=dt))).copy(form="cartesian")
     rr, vv = twobody.propagate(r0, v0, dt, mu)
     scale = max(np.linalg.norm(rr), np.linalg.norm(r0))
     c.ensure("position", bool(np.linalg.norm(np.asarray(res[:3], dtype=float) - rr) <= 1e-6 * scale))
@@ -187,7 +190,7 @@ def _(c):
     t1 = 0.37 * dt
     mid = orb.propagate(d0 + timedelta(seconds=t1))
     mid_orb = Orbit(np.asarray(mid, dtype=float), mid.date, mid.form, mid.frame, Kepler())
-    res2 = mid_orb.propagate(d0 + timedelta(seconds=dt)).copy(form="cartesian")
+    res2 = mid_orb.propagate(relab(d0 + timedelta(seconds=dt))).copy(form="cartesian")
     c.ensure("compose", bool(np.linalg.norm(np.asarray(res2[:3], dtype=float) - np.asarray(res[:3], dtype=float)) <= 1e-6 * scale))
     back = Orbit(np.asarray(res, dtype=float), res.date, "cartesian", res.frame, Kepler()).propagate(d0).copy(form="cartesian")
     c.ensure("inverse", bool(np.linalg.norm(np.asarray(back[:3], dtype=float) - r0) <= 1e-6 * scale))
@@ -206,7 +209,7 @@ def _grid_j2(tier, rng):
                 continue
             for i in (0.2, 0.9, math.pi / 2, math.asin(math.sqrt(0.8)), 1.7, 2.8):
                 for d in (-17, -1, -0.01, 0.01, 1, 17):
-                    yield {"a": a, "e": e, "i": i, "dt": d * 86400.0}
+                    yield {"a": a, "e": e, "i": i, "dt": d * 86400.0, "label": int(round(a / 1e5 + e * 1000 + d * 7)) % 3}
 
 
 @contract("C05", "j2.rates_native", funcs=[f"{J2M}:J2.propagate"], grid=_grid_j2, level="bounded", rtol=1e-9, atol=1e-9)
@@ -222,7 +225,9 @@ def _(c):
     O, w, M = 1.1, 2.2, 3.3
     d0 = Date(2018, 5, 4)
     orb = Orbit([a, e, i, O, w, M], d0, "keplerian_mean", "EME2000", J2())
-    res = orb.propagate(d0 + timedelta(seconds=dt)).copy(form="keplerian_mean")
+    lab = [None, "TT", "GPS"][c.integer("label")]   # the requested date in the epoch's own scale, or the same instant relabelled
+    target = d0 + timedelta(seconds=dt)
+    res = orb.propagate(target if lab is None else target.change_scale(lab)).copy(form="keplerian_mean")
     n = math.sqrt(Earth.mu / a ** 3)
     p = a * (1 - e * e)
     k = n * Earth.J2 * (Earth.r / p) ** 2
